@@ -2,6 +2,7 @@ package harness
 
 import (
 	"reflect"
+	"regexp"
 	"strconv"
 	"strings"
 	"time"
@@ -91,6 +92,8 @@ func parseAbsent(in MIn) bool {
 	return false
 }
 
+var decimalRx = regexp.MustCompile(`^[+-]?[0-9]+$`)
+
 func validateAbsent(n *Node, in MIn) bool {
 	if in.Missing || in.V.IsNil() {
 		return true
@@ -141,7 +144,9 @@ func CoerceModel(kind string, v Val) (out any, ok bool, known bool) {
 				_, ferr := strconv.ParseFloat(strings.TrimSpace(v.S), 64)
 				return nil, false, ferr != nil
 			}
-			canonical := strconv.FormatInt(i, 10) == v.S
+			// a run of decimal digits, optionally signed, zero-padded or not ("08" is eight: form fields and CSV
+			// cells are written that way), is a decimal number; anything else that happens to parse is outside the table
+			canonical := decimalRx.MatchString(v.S)
 			return int(i), true, canonical
 		case "f":
 			if v.F == float64(int64(v.F)) {
